@@ -19,7 +19,7 @@
 #define PARENT_MASK(p)                                                         \
   (MASK_OF((p)->pipe.in) | MASK_OF((p)->pipe.out) | MASK_OF((p)->pipe.err) | MASK_OF((p)->pipe.exit))
 #define NB_CONSISTENT(p, fd)                                                   \
-  (B((fd) == -1) | B(((g.nonblock & MASK_OF(fd)) != 0) == (p)->nonblocking))
+  (B((fd) == -1) | B(((g.fds.nonblock & MASK_OF(fd)) != 0) == (p)->nonblocking))
 /* a deadline is now + (int) option, on a clock > 2^32 that never goes back */
 #define DEADLINE_WF(p)                                                         \
   (B((p)->deadline == -1) |                                                    \
@@ -48,7 +48,7 @@
 #define RUNNING0 (process != NULL && P0(status) == ST_IN_PROGRESS)
 #define EXITED0 (process != NULL && P0(status) >= 0)
 #define MISUSE0 (process == NULL || P0(status) == ST_NOT_STARTED || P0(status) == ST_IN_CHILD)
-#define OS_UNTOUCHED (g.os_calls == OLD(g.os_calls) && g.open == OLD(g.open) && g.lib == OLD(g.lib) && g.nsig == OLD(g.nsig) && g.reaps == OLD(g.reaps))
+#define OS_UNTOUCHED (g.e.os_calls == OLD(g.e.os_calls) && g.fds.open == OLD(g.fds.open) && g.fds.lib == OLD(g.fds.lib) && g.nsig == OLD(g.nsig) && g.reaps == OLD(g.reaps))
 #define HANDLE_FIELDS_KEPT_EXCEPT_STATUS_EXIT                                  \
   (process->handle == P0(handle) && process->pipe.in == P0(pipe.in) &&         \
    process->pipe.out == P0(pipe.out) && process->pipe.err == P0(pipe.err) &&   \
@@ -64,7 +64,7 @@ CONTRACT(expiry)
 static int expiry(int timeout, int64_t deadline)
   REQ_(timeout >= -1)
   REQ_(deadline == -1 || (deadline > ((int64_t) 1 << 31) && deadline - g.now <= 0x7fffffffLL))
-  ASSIGNS(g.now, g.os_calls)
+  ASSIGNS(g.now, g.e.os_calls)
   ENS("C08/expiry.no_deadline_is_timeout", IMPLIES(deadline == -1, RV == timeout && g.now == OLD(g.now)))
   ENS("C08/expiry.expired_deadline", IMPLIES(deadline != -1 && g.now >= deadline, RV == -2))
   ENS("C08/expiry.min_of_timeout_and_remaining", IMPLIES(deadline != -1 && g.now < deadline, RV == ((timeout == -1 || deadline - g.now < timeout) ? (int) (deadline - g.now) : timeout)))
@@ -82,14 +82,14 @@ static int setup_input(pipe_type *pipe, const uint8_t *data, size_t size)
   REQ_(data == NULL || (gc.in_data == data && gc.in_size == size && g.stream_pos == 0 && g.in_fd == -1))
   ASSIGNS(data != NULL: *pipe; G_FD, G_ERR, G_WR)
   ENS("C14/setup_input.error_ghost_sane", G_ERR_SANE)
-  ENS("C02/setup_input.no_input_no_effect", IMPLIES(data == NULL, RV == 0 && g.os_calls == OLD(g.os_calls) && FD_LEDGER_UNCHANGED))
+  ENS("C02/setup_input.no_input_no_effect", IMPLIES(data == NULL, RV == 0 && g.e.os_calls == OLD(g.e.os_calls) && FD_LEDGER_UNCHANGED))
   ENS("C02/setup_input.all_bytes_written_in_order", IMPLIES(data != NULL && RV == 0, g.stream_pos == size))
   ENS("C02/setup_input.written_to_stdin_pipe", IMPLIES(data != NULL && g.stream_pos > 0, g.in_fd == OLD(*pipe)))
-  ENS("C02/setup_input.stdin_closed_after_input", IMPLIES(data != NULL && RV == 0, *pipe == -1 && g.open == (OLD(g.open) & ~MASK_OF(OLD(*pipe))) && g.lib == (OLD(g.lib) & ~MASK_OF(OLD(*pipe)))))
+  ENS("C02/setup_input.stdin_closed_after_input", IMPLIES(data != NULL && RV == 0, *pipe == -1 && g.fds.open == (OLD(g.fds.open) & ~MASK_OF(OLD(*pipe))) && g.fds.lib == (OLD(g.fds.lib) & ~MASK_OF(OLD(*pipe)))))
   ENS("C05/setup_input.failure_leaves_pipe_to_caller", IMPLIES(data != NULL && RV != 0, *pipe == OLD(*pipe) && FD_LEDGER_UNCHANGED))
   ENS("C17/setup_input.never_blocks", g.may_block == OLD(g.may_block))
-  ENS("C04/setup_input.success_has_no_failed_call", IMPLIES(RV == 0, g.faults == OLD(g.faults)))
-  ENS("C04/setup_input.zero_or_first_failure", RV <= 0 && IMPLIES(RV < 0, g.faults > OLD(g.faults) && IMPLIES(OLD(g.faults) == 0, RV == -g.first_errno)))
+  ENS("C04/setup_input.success_has_no_failed_call", IMPLIES(RV == 0, g.e.faults == OLD(g.e.faults)))
+  ENS("C04/setup_input.zero_or_first_failure", RV <= 0 && IMPLIES(RV < 0, g.e.faults > OLD(g.e.faults) && IMPLIES(OLD(g.e.faults) == 0, RV == -g.e.first_errno)))
   ENS("C14/setup_input.other_descriptors_untouched", FD_FRAME_EXCEPT((data != NULL) ? MASK_OF(OLD(*pipe)) : 0u))
   ;
 
@@ -121,7 +121,7 @@ static int setup_input(pipe_type *pipe, const uint8_t *data, size_t size)
 CONTRACT(find_earliest_deadline)
 static size_t find_earliest_deadline(reproc_event_source *sources, size_t num_sources)
   REQ_(sources != NULL && num_sources >= 1 && num_sources <= VERIF_NSRC)
-  ASSIGNS(g.now, g.os_calls)
+  ASSIGNS(g.now, g.e.os_calls)
   ENS("C08/find_earliest_deadline.index_in_range", RV < num_sources)
   ENS("C08/find_earliest_deadline.clock_monotone", g.now >= OLD(g.now))
   ;
@@ -140,7 +140,7 @@ static size_t find_earliest_deadline(reproc_event_source *sources, size_t num_so
                        : (j) == 2 ? ((SRC(k).interests & EV_ERR) ? SRC(k).process->pipe.err : -1) \
                                   : ((SRC(k).interests & EV_EXIT) ? SRC(k).process->pipe.exit : -1))
 #define VALID_ANY(k) (HASP(k) && (SLOT_PIPE(k, 0) != -1 || SLOT_PIPE(k, 1) != -1 || SLOT_PIPE(k, 2) != -1 || SLOT_PIPE(k, 3) != -1))
-#define EVBIT(k, j) (SLOT_PIPE(k, j) != -1 && g.poll_rev[4 * (k) + (j)] > 0)
+#define EVBIT(k, j) (SLOT_PIPE(k, j) != -1 && g.pl.poll_rev[4 * (k) + (j)] > 0)
 #define EV_EXPECT(k) (!HASP(k) ? 0 : ((EVBIT(k, 0) ? EV_IN : 0) | (EVBIT(k, 1) ? EV_OUT : 0) | (EVBIT(k, 2) ? EV_ERR : 0) | (EVBIT(k, 3) ? EV_EXIT : 0)))
 #define EV_IS_EXPECTED(k) (!IN_RANGE(k) || SRC(k).events == EV_EXPECT(k))
 #define EV_ZERO(k) (!IN_RANGE(k) || SRC(k).events == 0)
@@ -152,12 +152,12 @@ static size_t find_earliest_deadline(reproc_event_source *sources, size_t num_so
 #define ONLY_DEADLINE_ON_EXPIRED(r) (ONLY_DEADLINE_ON(r) && EXPIRED_NOW(r))
 #define ONLY_DEADLINE_ON_EARLIEST(r) (ONLY_DEADLINE_ON(r) && EARLIEST(r))
 #define SOME_R(phi) (phi(0) || phi(1) || phi(2))
-#define SLOTS_AS_ASKED(k) (!IN_RANGE(k) || (g.poll_fdv[4 * (k)] == (HASP(k) ? SLOT_PIPE(k, 0) : -1) && g.poll_fdv[4 * (k) + 1] == (HASP(k) ? SLOT_PIPE(k, 1) : -1) && g.poll_fdv[4 * (k) + 2] == (HASP(k) ? SLOT_PIPE(k, 2) : -1) && g.poll_fdv[4 * (k) + 3] == (HASP(k) ? SLOT_PIPE(k, 3) : -1) && IMPLIES(HASP(k), g.poll_evv[4 * (k)] == POLLOUT && g.poll_evv[4 * (k) + 1] == POLLIN && g.poll_evv[4 * (k) + 2] == POLLIN && g.poll_evv[4 * (k) + 3] == POLLIN)))
+#define SLOTS_AS_ASKED(k) (!IN_RANGE(k) || (g.pl.poll_fdv[4 * (k)] == (HASP(k) ? SLOT_PIPE(k, 0) : -1) && g.pl.poll_fdv[4 * (k) + 1] == (HASP(k) ? SLOT_PIPE(k, 1) : -1) && g.pl.poll_fdv[4 * (k) + 2] == (HASP(k) ? SLOT_PIPE(k, 2) : -1) && g.pl.poll_fdv[4 * (k) + 3] == (HASP(k) ? SLOT_PIPE(k, 3) : -1) && IMPLIES(HASP(k), g.pl.poll_evv[4 * (k)] == POLLOUT && g.pl.poll_evv[4 * (k) + 1] == POLLIN && g.pl.poll_evv[4 * (k) + 2] == POLLIN && g.pl.poll_evv[4 * (k) + 3] == POLLIN)))
 /* the timeout handed to poll: the smaller of `timeout` and the time left until
    the earliest deadline (INFINITE counts as larger than everything) */
-#define T_WITH_DEADLINE(d) ((timeout == -1 || (d) - g.poll_at < timeout) ? (int) ((d) - g.poll_at) : timeout)
-#define POLL_TIMEOUT_FOR(r) (!EARLIEST(r) || g.poll_timeout == T_WITH_DEADLINE(DL(r)))
-#define POLLED (g.poll_calls == OLD(g.poll_calls) + 1)
+#define T_WITH_DEADLINE(d) ((timeout == -1 || (d) - g.pl.poll_at < timeout) ? (int) ((d) - g.pl.poll_at) : timeout)
+#define POLL_TIMEOUT_FOR(r) (!EARLIEST(r) || g.pl.poll_timeout == T_WITH_DEADLINE(DL(r)))
+#define POLLED (g.pl.poll_calls == OLD(g.pl.poll_calls) + 1)
 #define KEPT(k) (!IN_RANGE(k) || (SRC(k).process == OLD(SRC(k).process) && SRC(k).interests == OLD(SRC(k).interests)))
 
 /* The clauses below are what callers (reproc_drain) rely on. The statements that
@@ -172,13 +172,13 @@ int reproc_poll(reproc_event_source *sources, size_t num_sources, int timeout)
   ENS("C14/reproc_poll.error_ghost_sane", G_ERR_SANE && g.now >= OLD(g.now))
   ENS("C14/reproc_poll.misuse_is_einval", IMPLIES(sources == NULL || num_sources == 0, RV == -EINVAL && OS_UNTOUCHED))
   ENS("C09/reproc_poll.sources_not_rewritten", IMPLIES(sources != NULL && num_sources != 0, ALL_K(KEPT)))
-  ENS("C09/reproc_poll.epipe_only_if_nothing_can_be_polled", IMPLIES(sources != NULL && num_sources != 0 && RV == -EPIPE, !ANY_K(VALID_ANY) && g.poll_calls == OLD(g.poll_calls)))
+  ENS("C09/reproc_poll.epipe_only_if_nothing_can_be_polled", IMPLIES(sources != NULL && num_sources != 0 && RV == -EPIPE, !ANY_K(VALID_ANY) && g.pl.poll_calls == OLD(g.pl.poll_calls)))
   ENS("C09/reproc_poll.events_subset_of_interests", IMPLIES(sources != NULL && num_sources != 0 && RV >= 0, ALL_K(EV_SUBSET)))
   ENS("C09/reproc_poll.stream_events_only_for_streams_that_can_be_polled", IMPLIES(sources != NULL && num_sources != 0 && RV >= 0, ALL_K(EV_ONLY_VALID)))
   ENS("C08/reproc_poll.infinite_timeout_returns_with_an_event", IMPLIES(sources != NULL && num_sources != 0 && timeout == -1 && RV >= 0, RV >= 1))
   ENS("C09/reproc_poll.result_counts_sources_with_events", IMPLIES(sources != NULL && num_sources != 0 && RV >= 0, RV == EV_COUNT))
-  ENS("C04/reproc_poll.errors", IMPLIES(sources != NULL && num_sources != 0 && RV < 0 && RV != -EPIPE, g.faults > OLD(g.faults) && IMPLIES(OLD(g.faults) == 0, RV == -g.first_errno)))
-  ENS("C05/reproc_poll.ledger_unchanged", g.open == OLD(g.open) && g.lib == OLD(g.lib))
+  ENS("C04/reproc_poll.errors", IMPLIES(sources != NULL && num_sources != 0 && RV < 0 && RV != -EPIPE, g.e.faults > OLD(g.e.faults) && IMPLIES(OLD(g.e.faults) == 0, RV == -g.e.first_errno)))
+  ENS("C05/reproc_poll.ledger_unchanged", g.fds.open == OLD(g.fds.open) && g.fds.lib == OLD(g.fds.lib))
   ;
 
 /* reproc_start (C04, C05, C06, C10, C12, C13, C14). */
@@ -195,15 +195,15 @@ int reproc_start(reproc_t *process, const char *const *argv, reproc_options opti
   REQ("C14/reproc_start.handle_invariant", process == NULL || INV(process))
   ASSIGNS(process != NULL: *process; g; environ)
   ENS("C14/reproc_start.misuse_is_einval", IMPLIES(!START_CALLABLE, RV == -EINVAL && OS_UNTOUCHED && IMPLIES(process != NULL, HANDLE_UNCHANGED)))
-  ENS("C13/reproc_start.invalid_options_rejected_before_any_side_effect", IMPLIES(START_CALLABLE && OPT_REJECT(options, ARGV_NULL, ARGV0_OK), RV == -EINVAL && g.os_calls == OLD(g.os_calls) && g.open == OLD(g.open) && g.lib == OLD(g.lib) && g.child_pid == OLD(g.child_pid) && HANDLE_UNCHANGED))
+  ENS("C13/reproc_start.invalid_options_rejected_before_any_side_effect", IMPLIES(START_CALLABLE && OPT_REJECT(options, ARGV_NULL, ARGV0_OK), RV == -EINVAL && g.e.os_calls == OLD(g.e.os_calls) && g.fds.open == OLD(g.fds.open) && g.fds.lib == OLD(g.fds.lib) && g.child_pid == OLD(g.child_pid) && HANDLE_UNCHANGED))
   ENS("C14/reproc_start.invariant_kept", IMPLIES(process != NULL && !g.in_child, INV(process)))
   ENS("C04/reproc_start.failure_leaves_handle_not_started", IMPLIES(START_CALLABLE && RV < 0 && !g.in_child, process->status == ST_NOT_STARTED && process->handle == -1 && PIPES_ALL_INVALID(process) && process->deadline == -1))
   ENS("C04+C05+C06/reproc_start.failure_leaves_no_child", IMPLIES(START_CALLABLE && RV < 0 && !g.in_child, !g.child_live && (g.child_pid == 0 || g.child_reaped)))
-  ENS("C05/reproc_start.failure_leaves_no_descriptor", IMPLIES(START_CALLABLE && RV < 0 && !g.in_child, g.open == OLD(g.open) && g.lib == OLD(g.lib)))
-  ENS("C04/reproc_start.failure_is_real_cause", IMPLIES(START_CALLABLE && RV < 0 && !g.in_child && START_VALID && OLD(g.faults) == 0, (g.faults > 0 && RV == -g.first_errno) || ((g.child_fate == FATE_FAILED_EARLY || g.child_fate == FATE_FAILED_LATE) && RV == -g.child_fate_errno)))
+  ENS("C05/reproc_start.failure_leaves_no_descriptor", IMPLIES(START_CALLABLE && RV < 0 && !g.in_child, g.fds.open == OLD(g.fds.open) && g.fds.lib == OLD(g.fds.lib)))
+  ENS("C04/reproc_start.failure_is_real_cause", IMPLIES(START_CALLABLE && RV < 0 && !g.in_child && START_VALID && OLD(g.e.faults) == 0, (g.e.faults > 0 && RV == -g.e.first_errno) || ((g.child_fate == FATE_FAILED_EARLY || g.child_fate == FATE_FAILED_LATE) && RV == -g.child_fate_errno)))
   ENS("C04+C06/reproc_start.success_is_running_child_that_executed", IMPLIES(START_CALLABLE && RV > 0, !g.in_child && process->status == ST_IN_PROGRESS && process->handle == g.child_pid && process->handle > 0 && g.child_live && !g.child_reaped && g.child_fate == FATE_EXECED))
   ENS("C10/reproc_start.parent_gets_a_pipe_end_exactly_for_piped_streams", IMPLIES(START_CALLABLE && RV > 0 && OPT_TYPES_IN_RANGE(options), (process->pipe.in != -1) == WANT_PIPE_IN && (process->pipe.out != -1) == WANT_PIPE_OUT && (process->pipe.err != -1) == WANT_PIPE_ERR && process->pipe.exit != -1))
-  ENS("C02+C05/reproc_start.childs_ends_closed_in_parent", IMPLIES(START_CALLABLE && RV > 0, g.open == (OLD(g.open) | PARENT_MASK(process)) && g.lib == (OLD(g.lib) | PARENT_MASK(process)) && (OLD(g.open) & PARENT_MASK(process)) == 0))
+  ENS("C02+C05/reproc_start.childs_ends_closed_in_parent", IMPLIES(START_CALLABLE && RV > 0, g.fds.open == (OLD(g.fds.open) | PARENT_MASK(process)) && g.fds.lib == (OLD(g.fds.lib) | PARENT_MASK(process)) && (OLD(g.fds.open) & PARENT_MASK(process)) == 0))
   ENS("C17/reproc_start.pipe_mode_is_the_option", IMPLIES(START_CALLABLE && RV > 0, process->nonblocking == options.nonblocking))
   ENS("C15/reproc_start.stop_policy_stored", IMPLIES(START_CALLABLE && RV > 0, STOP_PARSED(process->stop, options.stop)))
   ENS("C08/reproc_start.deadline_is_now_plus_option", IMPLIES(START_CALLABLE && RV > 0, (options.deadline == 0 || options.deadline == -1) ? process->deadline == -1 : process->deadline == g.now + options.deadline))
@@ -221,16 +221,16 @@ int reproc_wait(reproc_t *process, int timeout)
   ENS("C01/reproc_wait.cached_status_is_stable", IMPLIES(EXITED0, RV == P0(status) && OS_UNTOUCHED && HANDLE_UNCHANGED))
   ENS("C01/reproc_wait.status_is_exact_and_reaped_once", IMPLIES(RUNNING0 && RV >= 0, process->status == RV && RV == WST_DECODE(g.child_wstatus) && g.child_reaped && g.reaps == 1 && process->pipe.exit == -1))
   ENS("C01/reproc_wait.error_means_still_running_handle", IMPLIES(RUNNING0 && RV < 0, process->status == ST_IN_PROGRESS && !g.child_reaped && process->pipe.exit == P0(pipe.exit)))
-  ENS("C01/reproc_wait.reap_only_after_exit_seen", IMPLIES(g.wait_calls != OLD(g.wait_calls), g.wait_calls == OLD(g.wait_calls) + 1 && g.poll_ret > 0 && (g.poll_ready & MASK_OF(P0(pipe.exit))) != 0))
+  ENS("C01/reproc_wait.reap_only_after_exit_seen", IMPLIES(g.wait_calls != OLD(g.wait_calls), g.wait_calls == OLD(g.wait_calls) + 1 && g.pl.poll_ret > 0 && (g.pl.poll_ready & MASK_OF(P0(pipe.exit))) != 0))
   ENS("C06+C07/reproc_wait.sends_no_signal", g.nsig == OLD(g.nsig) && g.kill_calls == OLD(g.kill_calls))
-  ENS("C05/reproc_wait.closes_only_exit_pipe_once_reaped", g.open == (OLD(g.open) & ~((RUNNING0 && RV >= 0) ? MASK_OF(P0(pipe.exit)) : 0u)) && g.lib == (OLD(g.lib) & ~((RUNNING0 && RV >= 0) ? MASK_OF(P0(pipe.exit)) : 0u)))
+  ENS("C05/reproc_wait.closes_only_exit_pipe_once_reaped", g.fds.open == (OLD(g.fds.open) & ~((RUNNING0 && RV >= 0) ? MASK_OF(P0(pipe.exit)) : 0u)) && g.fds.lib == (OLD(g.fds.lib) & ~((RUNNING0 && RV >= 0) ? MASK_OF(P0(pipe.exit)) : 0u)))
   ENS("C14/reproc_wait.other_fields_kept", IMPLIES(process != NULL, HANDLE_FIELDS_KEPT_EXCEPT_STATUS_EXIT))
-  ENS("C08/reproc_wait.at_most_one_poll_on_exit_pipe", IMPLIES(RUNNING0, g.poll_calls <= OLD(g.poll_calls) + 1 && IMPLIES(g.poll_calls != OLD(g.poll_calls), g.poll_fds == MASK_OF(P0(pipe.exit)))))
-  ENS("C08/reproc_wait.timeout_only_after_full_timeout", IMPLIES(RUNNING0 && RV == -ETIMEDOUT, g.poll_ret == 0 && (timeout >= 0 || timeout == -2) && IMPLIES(timeout >= 0, g.poll_timeout == timeout && g.now - OLD(g.now) >= timeout)))
-  ENS("C08/reproc_wait.until_deadline_waits_exactly_until_deadline", IMPLIES(RUNNING0 && timeout == -2 && g.poll_calls != OLD(g.poll_calls), g.poll_timeout == (P0(deadline) == -1 ? -1 : P0(deadline) > g.poll_at ? (int) (P0(deadline) - g.poll_at) : 0)))
+  ENS("C08/reproc_wait.at_most_one_poll_on_exit_pipe", IMPLIES(RUNNING0, g.pl.poll_calls <= OLD(g.pl.poll_calls) + 1 && IMPLIES(g.pl.poll_calls != OLD(g.pl.poll_calls), g.pl.poll_fds == MASK_OF(P0(pipe.exit)))))
+  ENS("C08/reproc_wait.timeout_only_after_full_timeout", IMPLIES(RUNNING0 && RV == -ETIMEDOUT, g.pl.poll_ret == 0 && (timeout >= 0 || timeout == -2) && IMPLIES(timeout >= 0, g.pl.poll_timeout == timeout && g.now - OLD(g.now) >= timeout)))
+  ENS("C08/reproc_wait.until_deadline_waits_exactly_until_deadline", IMPLIES(RUNNING0 && timeout == -2 && g.pl.poll_calls != OLD(g.pl.poll_calls), g.pl.poll_timeout == (P0(deadline) == -1 ? -1 : P0(deadline) > g.pl.poll_at ? (int) (P0(deadline) - g.pl.poll_at) : 0)))
   ENS("C08/reproc_wait.until_deadline_timeout_means_deadline_passed", IMPLIES(RUNNING0 && timeout == -2 && RV == -ETIMEDOUT, P0(deadline) != -1 && g.now >= P0(deadline)))
-  ENS("C08/reproc_wait.other_timeouts_passed_through", IMPLIES(RUNNING0 && timeout != -2 && g.poll_calls != OLD(g.poll_calls), g.poll_timeout == timeout))
-  ENS("C04/reproc_wait.error_is_first_failure", IMPLIES(RUNNING0 && RV < 0 && RV != -ETIMEDOUT && OLD(g.faults) == 0, g.faults > 0 && RV == -g.first_errno))
+  ENS("C08/reproc_wait.other_timeouts_passed_through", IMPLIES(RUNNING0 && timeout != -2 && g.pl.poll_calls != OLD(g.pl.poll_calls), g.pl.poll_timeout == timeout))
+  ENS("C04/reproc_wait.error_is_first_failure", IMPLIES(RUNNING0 && RV < 0 && RV != -ETIMEDOUT && OLD(g.e.faults) == 0, g.e.faults > 0 && RV == -g.e.first_errno))
   ;
 
 CONTRACT(reproc_terminate)
@@ -240,8 +240,8 @@ int reproc_terminate(reproc_t *process)
   ENS("C14/reproc_terminate.misuse_is_einval", IMPLIES(MISUSE0, RV == -EINVAL && OS_UNTOUCHED))
   ENS("C06/reproc_terminate.after_exit_sends_nothing", IMPLIES(EXITED0, RV == 0 && OS_UNTOUCHED))
   ENS("C07/reproc_terminate.sends_sigterm_once", IMPLIES(RUNNING0, g.kill_calls == OLD(g.kill_calls) + 1 && IMPLIES(RV == 0, g.nsig == OLD(g.nsig) + 1 && IMPLIES(OLD(g.nsig) < 4, g.sig_log[OLD(g.nsig)] == SIGTERM))))
-  ENS("C07/reproc_terminate.failure_sends_nothing", IMPLIES(RUNNING0 && RV != 0, RV < 0 && RV == -g.err && g.nsig == OLD(g.nsig)))
-  ENS("C14/reproc_terminate.handle_and_ledger_unchanged", IMPLIES(process != NULL, HANDLE_UNCHANGED && INV(process)) && g.open == OLD(g.open) && g.lib == OLD(g.lib) && g.reaps == OLD(g.reaps) && g.wait_calls == OLD(g.wait_calls) && g.poll_calls == OLD(g.poll_calls))
+  ENS("C07/reproc_terminate.failure_sends_nothing", IMPLIES(RUNNING0 && RV != 0, RV < 0 && RV == -g.e.err && g.nsig == OLD(g.nsig)))
+  ENS("C14/reproc_terminate.handle_and_ledger_unchanged", IMPLIES(process != NULL, HANDLE_UNCHANGED && INV(process)) && g.fds.open == OLD(g.fds.open) && g.fds.lib == OLD(g.fds.lib) && g.reaps == OLD(g.reaps) && g.wait_calls == OLD(g.wait_calls) && g.pl.poll_calls == OLD(g.pl.poll_calls))
   ;
 
 CONTRACT(reproc_kill)
@@ -251,8 +251,8 @@ int reproc_kill(reproc_t *process)
   ENS("C14/reproc_kill.misuse_is_einval", IMPLIES(MISUSE0, RV == -EINVAL && OS_UNTOUCHED))
   ENS("C06/reproc_kill.after_exit_sends_nothing", IMPLIES(EXITED0, RV == 0 && OS_UNTOUCHED))
   ENS("C07/reproc_kill.sends_sigkill_once", IMPLIES(RUNNING0, g.kill_calls == OLD(g.kill_calls) + 1 && IMPLIES(RV == 0, g.nsig == OLD(g.nsig) + 1 && IMPLIES(OLD(g.nsig) < 4, g.sig_log[OLD(g.nsig)] == SIGKILL))))
-  ENS("C07/reproc_kill.failure_sends_nothing", IMPLIES(RUNNING0 && RV != 0, RV < 0 && RV == -g.err && g.nsig == OLD(g.nsig)))
-  ENS("C14/reproc_kill.handle_and_ledger_unchanged", IMPLIES(process != NULL, HANDLE_UNCHANGED && INV(process)) && g.open == OLD(g.open) && g.lib == OLD(g.lib) && g.reaps == OLD(g.reaps) && g.wait_calls == OLD(g.wait_calls) && g.poll_calls == OLD(g.poll_calls))
+  ENS("C07/reproc_kill.failure_sends_nothing", IMPLIES(RUNNING0 && RV != 0, RV < 0 && RV == -g.e.err && g.nsig == OLD(g.nsig)))
+  ENS("C14/reproc_kill.handle_and_ledger_unchanged", IMPLIES(process != NULL, HANDLE_UNCHANGED && INV(process)) && g.fds.open == OLD(g.fds.open) && g.fds.lib == OLD(g.fds.lib) && g.reaps == OLD(g.reaps) && g.wait_calls == OLD(g.wait_calls) && g.pl.poll_calls == OLD(g.pl.poll_calls))
   ;
 
 CONTRACT(reproc_pid)
@@ -276,10 +276,10 @@ int reproc_stop(reproc_t *process, reproc_stop_actions stop)
   ENS("C14/reproc_stop.invariant_kept", IMPLIES(process != NULL, INV(process) && HANDLE_FIELDS_KEPT_EXCEPT_STATUS_EXIT))
   ENS("C01+C07/reproc_stop.status_iff_reaped", IMPLIES(STARTED0, IMPLIES(RV >= 0, g.child_reaped && g.reaps == 1 && RV == WST_DECODE(g.child_wstatus) && process->status == RV) && IMPLIES(g.child_reaped && !PLAN_EXEMPT_EINVAL, RV >= 0)))
   ENS("C01/reproc_stop.cached_status_is_stable", IMPLIES(EXITED0 && RV >= 0, RV == P0(status)) && IMPLIES(EXITED0, OS_UNTOUCHED && HANDLE_UNCHANGED))
-  ENS("C07/reproc_stop.timeout_iff_every_wait_expired", IMPLIES(RUNNING0 && gc.plan_on, IMPLIES(RV == -ETIMEDOUT, !g.child_reaped && g.plan_pos == gc.plan_n && gc.plan_invalid_at < 0 && g.poll_ret == 0) && IMPLIES(!g.child_reaped && g.plan_pos == gc.plan_n && gc.plan_n > 0 && gc.plan_invalid_at < 0 && g.poll_ret == 0 && g.poll_calls > OLD(g.poll_calls), RV == -ETIMEDOUT)))
-  ENS("C07/reproc_stop.otherwise_error_of_failed_action", IMPLIES(RUNNING0 && gc.plan_on && RV < 0 && RV != -ETIMEDOUT, (PLAN_EXEMPT_EINVAL && RV == -EINVAL) || (g.faults > OLD(g.faults) && IMPLIES(OLD(g.faults) == 0, RV == -g.first_errno))))
-  ENS("C07/reproc_stop.out_of_range_action_is_einval", IMPLIES(RUNNING0 && gc.plan_on && PLAN_EXEMPT_EINVAL && g.faults == OLD(g.faults) && !g.child_reaped && (g.plan_pos == 0 || g.poll_ret == 0), RV == -EINVAL))
-  ENS("C05/reproc_stop.closes_only_exit_pipe_once_reaped", g.open == (OLD(g.open) & ~((RUNNING0 && g.child_reaped) ? MASK_OF(P0(pipe.exit)) : 0u)) && g.lib == (OLD(g.lib) & ~((RUNNING0 && g.child_reaped) ? MASK_OF(P0(pipe.exit)) : 0u)))
+  ENS("C07/reproc_stop.timeout_iff_every_wait_expired", IMPLIES(RUNNING0 && gc.plan_on, IMPLIES(RV == -ETIMEDOUT, !g.child_reaped && g.plan_pos == gc.plan_n && gc.plan_invalid_at < 0 && g.pl.poll_ret == 0) && IMPLIES(!g.child_reaped && g.plan_pos == gc.plan_n && gc.plan_n > 0 && gc.plan_invalid_at < 0 && g.pl.poll_ret == 0 && g.pl.poll_calls > OLD(g.pl.poll_calls), RV == -ETIMEDOUT)))
+  ENS("C07/reproc_stop.otherwise_error_of_failed_action", IMPLIES(RUNNING0 && gc.plan_on && RV < 0 && RV != -ETIMEDOUT, (PLAN_EXEMPT_EINVAL && RV == -EINVAL) || (g.e.faults > OLD(g.e.faults) && IMPLIES(OLD(g.e.faults) == 0, RV == -g.e.first_errno))))
+  ENS("C07/reproc_stop.out_of_range_action_is_einval", IMPLIES(RUNNING0 && gc.plan_on && PLAN_EXEMPT_EINVAL && g.e.faults == OLD(g.e.faults) && !g.child_reaped && (g.plan_pos == 0 || g.pl.poll_ret == 0), RV == -EINVAL))
+  ENS("C05/reproc_stop.closes_only_exit_pipe_once_reaped", g.fds.open == (OLD(g.fds.open) & ~((RUNNING0 && g.child_reaped) ? MASK_OF(P0(pipe.exit)) : 0u)) && g.fds.lib == (OLD(g.fds.lib) & ~((RUNNING0 && g.child_reaped) ? MASK_OF(P0(pipe.exit)) : 0u)))
   ;
 
 /* reproc_destroy (C15, C05): on a running handle the stop sequence given at
@@ -287,7 +287,7 @@ int reproc_stop(reproc_t *process, reproc_stop_actions stop)
    close contract refuses to release anything while the plan is unfinished), then
    every end the parent still holds is closed once and the handle is freed. */
 #define PARENT_MASK0 (MASK_OF(P0(pipe.in)) | MASK_OF(P0(pipe.out)) | MASK_OF(P0(pipe.err)) | MASK_OF(P0(pipe.exit)))
-#define STOP_RAN_TO_COMPLETION (g.child_reaped || g.faults > OLD(g.faults) || g.plan_pos >= gc.plan_n || (gc.plan_invalid_at >= 0 && g.plan_pos == gc.plan_invalid_at))
+#define STOP_RAN_TO_COMPLETION (g.child_reaped || g.e.faults > OLD(g.e.faults) || g.plan_pos >= gc.plan_n || (gc.plan_invalid_at >= 0 && g.plan_pos == gc.plan_invalid_at))
 
 CONTRACT(reproc_destroy)
 reproc_t *reproc_destroy(reproc_t *process)
@@ -296,9 +296,9 @@ reproc_t *reproc_destroy(reproc_t *process)
   FREES(process)
   ENS("C15/reproc_destroy.returns_null", RV == NULL)
   ENS("C14+C15/reproc_destroy.null_is_noop", IMPLIES(process == NULL, OS_UNTOUCHED))
-  ENS("C15/reproc_destroy.no_stop_unless_running", IMPLIES(process != NULL && P0(status) != ST_IN_PROGRESS, g.nsig == OLD(g.nsig) && g.kill_calls == OLD(g.kill_calls) && g.poll_calls == OLD(g.poll_calls) && g.wait_calls == OLD(g.wait_calls)))
+  ENS("C15/reproc_destroy.no_stop_unless_running", IMPLIES(process != NULL && P0(status) != ST_IN_PROGRESS, g.nsig == OLD(g.nsig) && g.kill_calls == OLD(g.kill_calls) && g.pl.poll_calls == OLD(g.pl.poll_calls) && g.wait_calls == OLD(g.wait_calls)))
   ENS("C15/reproc_destroy.running_child_gets_the_stop_policy", IMPLIES(RUNNING0 && gc.plan_on, STOP_RAN_TO_COMPLETION))
-  ENS("C05+C15/reproc_destroy.every_parent_end_closed_once", IMPLIES(process != NULL && !g.in_child, g.open == (OLD(g.open) & ~PARENT_MASK0) && g.lib == (OLD(g.lib) & ~PARENT_MASK0)))
+  ENS("C05+C15/reproc_destroy.every_parent_end_closed_once", IMPLIES(process != NULL && !g.in_child, g.fds.open == (OLD(g.fds.open) & ~PARENT_MASK0) && g.fds.lib == (OLD(g.fds.lib) & ~PARENT_MASK0)))
   ENS("C05/reproc_destroy.other_descriptors_untouched", FD_FRAME_EXCEPT(process != NULL ? PARENT_MASK0 : 0u))
   ;
 
@@ -308,8 +308,8 @@ int reproc_close(reproc_t *process, REPROC_STREAM stream)
   ASSIGNS(process != NULL: *process; g)
   ENS("C14/reproc_close.misuse_is_einval", IMPLIES(process == NULL || P0(status) == ST_IN_CHILD, RV == -EINVAL && OS_UNTOUCHED))
   ENS("C14/reproc_close.bad_stream_is_einval", IMPLIES(process != NULL && P0(status) != ST_IN_CHILD && !(stream == REPROC_STREAM_IN || stream == REPROC_STREAM_OUT || stream == REPROC_STREAM_ERR), RV == -EINVAL && OS_UNTOUCHED && HANDLE_UNCHANGED))
-  ENS("C02+C14/reproc_close.closes_exactly_that_stream", IMPLIES(process != NULL && P0(status) != ST_IN_CHILD && (stream == REPROC_STREAM_IN || stream == REPROC_STREAM_OUT || stream == REPROC_STREAM_ERR), RV == 0 && (stream == REPROC_STREAM_IN ? process->pipe.in : stream == REPROC_STREAM_OUT ? process->pipe.out : process->pipe.err) == -1 && g.open == (OLD(g.open) & ~MASK_OF(stream == REPROC_STREAM_IN ? P0(pipe.in) : stream == REPROC_STREAM_OUT ? P0(pipe.out) : P0(pipe.err))) && g.lib == (OLD(g.lib) & ~MASK_OF(stream == REPROC_STREAM_IN ? P0(pipe.in) : stream == REPROC_STREAM_OUT ? P0(pipe.out) : P0(pipe.err)))))
-  ENS("C14/reproc_close.idempotent", IMPLIES(process != NULL && P0(status) != ST_IN_CHILD && (stream == REPROC_STREAM_IN ? P0(pipe.in) : stream == REPROC_STREAM_OUT ? P0(pipe.out) : stream == REPROC_STREAM_ERR ? P0(pipe.err) : -1) == -1, g.os_calls == OLD(g.os_calls)))
+  ENS("C02+C14/reproc_close.closes_exactly_that_stream", IMPLIES(process != NULL && P0(status) != ST_IN_CHILD && (stream == REPROC_STREAM_IN || stream == REPROC_STREAM_OUT || stream == REPROC_STREAM_ERR), RV == 0 && (stream == REPROC_STREAM_IN ? process->pipe.in : stream == REPROC_STREAM_OUT ? process->pipe.out : process->pipe.err) == -1 && g.fds.open == (OLD(g.fds.open) & ~MASK_OF(stream == REPROC_STREAM_IN ? P0(pipe.in) : stream == REPROC_STREAM_OUT ? P0(pipe.out) : P0(pipe.err))) && g.fds.lib == (OLD(g.fds.lib) & ~MASK_OF(stream == REPROC_STREAM_IN ? P0(pipe.in) : stream == REPROC_STREAM_OUT ? P0(pipe.out) : P0(pipe.err)))))
+  ENS("C14/reproc_close.idempotent", IMPLIES(process != NULL && P0(status) != ST_IN_CHILD && (stream == REPROC_STREAM_IN ? P0(pipe.in) : stream == REPROC_STREAM_OUT ? P0(pipe.out) : stream == REPROC_STREAM_ERR ? P0(pipe.err) : -1) == -1, g.e.os_calls == OLD(g.e.os_calls)))
   ENS("C14/reproc_close.other_fields_kept", IMPLIES(process != NULL, INV(process) && process->status == P0(status) && process->handle == P0(handle) && process->pipe.exit == P0(pipe.exit) && process->deadline == P0(deadline) && (stream == REPROC_STREAM_IN || process->pipe.in == P0(pipe.in)) && (stream == REPROC_STREAM_OUT || process->pipe.out == P0(pipe.out)) && (stream == REPROC_STREAM_ERR || process->pipe.err == P0(pipe.err))))
   ENS("C06/reproc_close.no_process_effect", g.nsig == OLD(g.nsig) && g.reaps == OLD(g.reaps) && g.kill_calls == OLD(g.kill_calls) && g.wait_calls == OLD(g.wait_calls))
   ;
@@ -324,12 +324,12 @@ int reproc_read(reproc_t *process, REPROC_STREAM stream, uint8_t *buffer, size_t
   ASSIGNS(process != NULL: *process; g; buffer != NULL: __CPROVER_object_whole(buffer))
   ENS("C14/reproc_read.misuse_is_einval", IMPLIES(!RD_ARGS_OK, RV == -EINVAL && OS_UNTOUCHED))
   ENS("C02+C14/reproc_read.closed_or_unpiped_stream_is_epipe", IMPLIES(RD_ARGS_OK && RD_PIPE0 == -1, RV == -EPIPE && OS_UNTOUCHED && HANDLE_UNCHANGED))
-  ENS("C02/reproc_read.one_read_on_that_stream", IMPLIES(RD_ARGS_OK && RD_PIPE0 != -1, g.rd_calls == OLD(g.rd_calls) + 1 && g.rd_fd == RD_PIPE0 && g.rd_buf == (const void *) buffer && g.rd_n == size && g.wr_calls == OLD(g.wr_calls) && g.poll_calls == OLD(g.poll_calls)))
-  ENS("C02/reproc_read.result_is_kernels", IMPLIES(RD_ARGS_OK && RD_PIPE0 != -1, (g.rd_ret > 0 ? RV == g.rd_ret : g.rd_ret == 0 ? RV == -EPIPE : (RV == -g.rd_errno && RV < 0))))
-  ENS("C02/reproc_read.epipe_only_at_end_of_stream", IMPLIES(RD_ARGS_OK && RD_PIPE0 != -1 && RV == -EPIPE, g.rd_ret == 0))
-  ENS("C02/reproc_read.epipe_is_sticky", IMPLIES(RD_ARGS_OK && RV == -EPIPE, RD_PIPE == -1 && g.open == (OLD(g.open) & ~MASK_OF(RD_PIPE0)) && g.lib == (OLD(g.lib) & ~MASK_OF(RD_PIPE0))))
-  ENS("C02/reproc_read.stream_kept_open_otherwise", IMPLIES(RD_ARGS_OK && RV != -EPIPE, RD_PIPE == RD_PIPE0 && g.open == OLD(g.open) && g.lib == OLD(g.lib)))
-  ENS("C17/reproc_read.ewouldblock", IMPLIES(RD_ARGS_OK && RD_PIPE0 != -1 && g.rd_ret < 0 && g.rd_errno == EAGAIN, RV == REPROC_EWOULDBLOCK))
+  ENS("C02/reproc_read.one_read_on_that_stream", IMPLIES(RD_ARGS_OK && RD_PIPE0 != -1, g.rl.rd_calls == OLD(g.rl.rd_calls) + 1 && g.rl.rd_fd == RD_PIPE0 && g.rl.rd_buf == (const void *) buffer && g.rl.rd_n == size && g.wl.wr_calls == OLD(g.wl.wr_calls) && g.pl.poll_calls == OLD(g.pl.poll_calls)))
+  ENS("C02/reproc_read.result_is_kernels", IMPLIES(RD_ARGS_OK && RD_PIPE0 != -1, (g.rl.rd_ret > 0 ? RV == g.rl.rd_ret : g.rl.rd_ret == 0 ? RV == -EPIPE : (RV == -g.rl.rd_errno && RV < 0))))
+  ENS("C02/reproc_read.epipe_only_at_end_of_stream", IMPLIES(RD_ARGS_OK && RD_PIPE0 != -1 && RV == -EPIPE, g.rl.rd_ret == 0))
+  ENS("C02/reproc_read.epipe_is_sticky", IMPLIES(RD_ARGS_OK && RV == -EPIPE, RD_PIPE == -1 && g.fds.open == (OLD(g.fds.open) & ~MASK_OF(RD_PIPE0)) && g.fds.lib == (OLD(g.fds.lib) & ~MASK_OF(RD_PIPE0))))
+  ENS("C02/reproc_read.stream_kept_open_otherwise", IMPLIES(RD_ARGS_OK && RV != -EPIPE, RD_PIPE == RD_PIPE0 && g.fds.open == OLD(g.fds.open) && g.fds.lib == OLD(g.fds.lib)))
+  ENS("C17/reproc_read.ewouldblock", IMPLIES(RD_ARGS_OK && RD_PIPE0 != -1 && g.rl.rd_ret < 0 && g.rl.rd_errno == EAGAIN, RV == REPROC_EWOULDBLOCK))
   ENS("C17/reproc_read.nonblocking_never_sleeps", IMPLIES(process != NULL && P0(nonblocking), g.may_block == OLD(g.may_block)))
   ENS("C14/reproc_read.other_fields_kept", IMPLIES(process != NULL, INV(process) && process->status == P0(status) && process->handle == P0(handle) && process->pipe.in == P0(pipe.in) && process->pipe.exit == P0(pipe.exit) && process->deadline == P0(deadline) && (stream == REPROC_STREAM_OUT || process->pipe.out == P0(pipe.out)) && (stream == REPROC_STREAM_ERR || process->pipe.err == P0(pipe.err))))
   ENS("C06/reproc_read.no_process_effect", g.nsig == OLD(g.nsig) && g.reaps == OLD(g.reaps) && g.kill_calls == OLD(g.kill_calls) && g.wait_calls == OLD(g.wait_calls))
@@ -344,11 +344,11 @@ int reproc_write(reproc_t *process, const uint8_t *buffer, size_t size)
   ENS("C14/reproc_write.misuse_is_einval", IMPLIES(!WR_ARGS_OK || (buffer == NULL && size != 0), RV == -EINVAL && OS_UNTOUCHED))
   ENS("C14/reproc_write.null_empty_is_zero", IMPLIES(WR_ARGS_OK && buffer == NULL && size == 0, RV == 0 && OS_UNTOUCHED && HANDLE_UNCHANGED))
   ENS("C02+C14/reproc_write.closed_or_unpiped_stdin_is_epipe", IMPLIES(WR_ARGS_OK && buffer != NULL && P0(pipe.in) == -1, RV == -EPIPE && OS_UNTOUCHED && HANDLE_UNCHANGED))
-  ENS("C02/reproc_write.one_write_on_stdin", IMPLIES(WR_ARGS_OK && buffer != NULL && P0(pipe.in) != -1, g.wr_calls == OLD(g.wr_calls) + 1 && g.wr_fd == P0(pipe.in) && g.wr_buf == (const void *) buffer && g.wr_n == size && g.rd_calls == OLD(g.rd_calls) && g.poll_calls == OLD(g.poll_calls)))
-  ENS("C02/reproc_write.result_is_kernels", IMPLIES(WR_ARGS_OK && buffer != NULL && P0(pipe.in) != -1, (g.wr_ret >= 0 ? RV == g.wr_ret : (RV == -g.wr_errno && RV < 0))))
-  ENS("C02/reproc_write.epipe_closes_stdin", IMPLIES(WR_ARGS_OK && buffer != NULL && RV == -EPIPE, process->pipe.in == -1 && g.open == (OLD(g.open) & ~MASK_OF(P0(pipe.in))) && g.lib == (OLD(g.lib) & ~MASK_OF(P0(pipe.in)))))
-  ENS("C02/reproc_write.stdin_kept_open_otherwise", IMPLIES(process != NULL && !(WR_ARGS_OK && buffer != NULL && RV == -EPIPE), process->pipe.in == P0(pipe.in) && g.open == OLD(g.open) && g.lib == OLD(g.lib)))
-  ENS("C17/reproc_write.ewouldblock", IMPLIES(WR_ARGS_OK && buffer != NULL && P0(pipe.in) != -1 && g.wr_ret < 0 && g.wr_errno == EAGAIN, RV == REPROC_EWOULDBLOCK))
+  ENS("C02/reproc_write.one_write_on_stdin", IMPLIES(WR_ARGS_OK && buffer != NULL && P0(pipe.in) != -1, g.wl.wr_calls == OLD(g.wl.wr_calls) + 1 && g.wl.wr_fd == P0(pipe.in) && g.wl.wr_buf == (const void *) buffer && g.wl.wr_n == size && g.rl.rd_calls == OLD(g.rl.rd_calls) && g.pl.poll_calls == OLD(g.pl.poll_calls)))
+  ENS("C02/reproc_write.result_is_kernels", IMPLIES(WR_ARGS_OK && buffer != NULL && P0(pipe.in) != -1, (g.wl.wr_ret >= 0 ? RV == g.wl.wr_ret : (RV == -g.wl.wr_errno && RV < 0))))
+  ENS("C02/reproc_write.epipe_closes_stdin", IMPLIES(WR_ARGS_OK && buffer != NULL && RV == -EPIPE, process->pipe.in == -1 && g.fds.open == (OLD(g.fds.open) & ~MASK_OF(P0(pipe.in))) && g.fds.lib == (OLD(g.fds.lib) & ~MASK_OF(P0(pipe.in)))))
+  ENS("C02/reproc_write.stdin_kept_open_otherwise", IMPLIES(process != NULL && !(WR_ARGS_OK && buffer != NULL && RV == -EPIPE), process->pipe.in == P0(pipe.in) && g.fds.open == OLD(g.fds.open) && g.fds.lib == OLD(g.fds.lib)))
+  ENS("C17/reproc_write.ewouldblock", IMPLIES(WR_ARGS_OK && buffer != NULL && P0(pipe.in) != -1 && g.wl.wr_ret < 0 && g.wl.wr_errno == EAGAIN, RV == REPROC_EWOULDBLOCK))
   ENS("C17/reproc_write.nonblocking_never_sleeps", IMPLIES(process != NULL && P0(nonblocking), g.may_block == OLD(g.may_block)))
   ENS("C14/reproc_write.other_fields_kept", IMPLIES(process != NULL, INV(process) && process->status == P0(status) && process->handle == P0(handle) && process->pipe.out == P0(pipe.out) && process->pipe.err == P0(pipe.err) && process->pipe.exit == P0(pipe.exit) && process->deadline == P0(deadline)))
   ENS("C06/reproc_write.no_process_effect", g.nsig == OLD(g.nsig) && g.reaps == OLD(g.reaps) && g.kill_calls == OLD(g.kill_calls) && g.wait_calls == OLD(g.wait_calls))
